@@ -105,6 +105,7 @@ func runC04(r *Run) {
 
 	// ---------------- C04.verify
 	checkVerify(r)
+	checkKeySize(r)
 }
 
 func handlerSummary(hs []*Handler) []string {
